@@ -412,12 +412,36 @@ pub fn c14(tier: Tier) -> i32 {
             }
         }
     }
+    // vectors wider than a memory page (two pages per item): a batch bounded in pages then holds about half as many
+    // items as pages; with a bucket capacity above that number (and below the 200-item floor) a batch that stopped
+    // at the page budget alone would fit a single bucket again and the large-descendants loop would never advance
+    for (n, round2) in [(300usize, 0usize), (300, 1)] {
+        let dim = 1100usize;
+        let items: Vec<(u32, Vec<u32>)> = (0..n).map(|i| (i as u32, lattice_vec(dim, i, 1))).collect();
+        let total = n * (1 + 4 + 4 * dim);
+        let (del, add): (Vec<u32>, Vec<(u32, Vec<u32>)>) = if round2 == 0 { (Vec::new(), Vec::new()) } else { ((0..n as u32).step_by(2).collect(), (0..250).map(|i| (10_000 + i as u32, lattice_vec(dim, i, 2))).collect()) };
+        scenarios.push(Scenario {
+            label: format!("euclidean-wider-than-a-page-d{dim}-n{n}-cap120-t2-r{round2}"),
+            metric: Metric::Euclidean,
+            dim,
+            items,
+            round2_del: del,
+            round2_add: add,
+            more_rounds: Vec::new(),
+            n_trees: Some(2),
+            split_after: Some(120),
+            memories: vec![None, Some(0), Some(3 * page), Some(total / 2), Some(usize::MAX)],
+            seed: crate::common::verif_seed(),
+            judge_distances: true,
+            horizon: 0,
+        });
+    }
     finish(
         &mut report,
         "C14",
         scenarios,
         if tier == Tier::Quick { 45 } else { 1500 },
-        "for every scenario (bulk population on both sides of the 200-item batch floor x bucket capacity x tree count x optional incremental rounds: deletions mixed with large insertions, a large insertion with hardly any deletion, and a near-total deletion followed by a large insertion that reuses the freed tree-node ids) and every available_memory value (unset as the reference, 0, a few pages, about half / all of the items, ample): the build terminates within 200x the polls of the unset build of the same state (deterministic hang detection, no clock), the structure oracle S holds, the stored vectors are intact and exact queries (unlimited budget, by item and by vector, with and without a filter) equal the f64 brute force",
+        "for every scenario (bulk population on both sides of the 200-item batch floor x bucket capacity x tree count x optional incremental rounds: deletions mixed with large insertions, a large insertion with hardly any deletion, and a near-total deletion followed by a large insertion that reuses the freed tree-node ids; plus 300 vectors of 1100 dimensions, wider than a memory page, with a capacity of 120) and every available_memory value (unset as the reference, 0, a few pages, about half / all of the items, ample): the build terminates within 200x the polls of the unset build of the same state (deterministic hang detection, no clock), the structure oracle S holds, the stored vectors are intact and exact queries (unlimited budget, by item and by vector, with and without a filter) equal the f64 brute force",
     );
     report.finish()
 }
